@@ -230,18 +230,29 @@ func (x *Exec) runUnit() {
 		x.note("unit has no normally returning path")
 		return
 	}
-	// ensures on the merged exit state
-	penv := x.frameEnv(fr0, out)
-	penv.Old = x.entry
-	for i := 0; i < fn.Signature.Results().Len(); i++ {
-		if i < len(sp.Results) {
-			penv.Vars[sp.Results[i].Name] = SV{V: vals[i], T: fn.Signature.Results().At(i).Type()}
-		}
-	}
+	// ensures, checked return path by return path (parts of one obligation per clause)
+	_ = vals
 	for _, e := range sp.Ensures {
 		x.curSite = ""
-		t := x.evalBool(e.E, penv)
-		x.oblige(out, "post", e.Label, "", e.Src, t)
+		var parts []*Term
+		for _, r := range x.unitRets {
+			if isFalse(r.st.PC) {
+				continue
+			}
+			penv := x.frameEnv(fr0, r.st)
+			penv.Old = x.entry
+			for i := 0; i < fn.Signature.Results().Len(); i++ {
+				if i < len(sp.Results) {
+					penv.Vars[sp.Results[i].Name] = SV{V: r.vals[i], T: fn.Signature.Results().At(i).Type()}
+				}
+			}
+			t := x.evalBool(e.E, penv)
+			g := c.Implies(r.st.PC, t)
+			if !isTrue(g) {
+				parts = append(parts, g)
+			}
+		}
+		x.obligeParts("post", e.Label, "", e.Src, parts)
 	}
 	// replay bindings
 	x.replayTerms = nil
@@ -295,8 +306,12 @@ type SolveOpts struct {
 	Second   bool // also require a second solver (thorough)
 }
 
-func (x *Exec) scriptFor(o *Oblig, forCVC5 bool, withModel bool) string {
+func (x *Exec) scriptFor(o *Oblig, part int, forCVC5 bool, withModel bool) string {
 	c := x.C
+	goal := o.Goal
+	if len(o.Parts) > 0 {
+		goal = o.Parts[part]
+	}
 	var asserts []*Term
 	for i := 0; i < o.NAssume && i < len(x.assumes); i++ {
 		a := x.assumes[i]
@@ -305,7 +320,7 @@ func (x *Exec) scriptFor(o *Oblig, forCVC5 bool, withModel bool) string {
 		}
 		asserts = append(asserts, a.T)
 	}
-	asserts = append(asserts, c.Not(o.Goal))
+	asserts = append(asserts, c.Not(goal))
 	var gv []*Term
 	if withModel {
 		for _, rt := range x.replayTerms {
@@ -319,13 +334,28 @@ var nameSan = regexp.MustCompile(`[^A-Za-z0-9_.-]+`)
 
 func SolveUnits(units []*UnitResult, opts SolveOpts) {
 	type job struct {
-		u *UnitResult
-		o *Oblig
+		u    *UnitResult
+		o    *Oblig
+		part int
+	}
+	type partRes struct {
+		r SolveResult
 	}
 	var jobs []job
+	results := map[*Oblig][]SolveResult{}
 	for _, u := range units {
 		for _, o := range u.Obligs {
-			jobs = append(jobs, job{u, o})
+			n := 1
+			if len(o.Parts) > 0 {
+				n = len(o.Parts)
+			}
+			results[o] = make([]SolveResult, n)
+			if o.Trivial {
+				continue
+			}
+			for k := 0; k < n; k++ {
+				jobs = append(jobs, job{u, o, k})
+			}
 		}
 	}
 	ch := make(chan job)
@@ -335,42 +365,29 @@ func SolveUnits(units []*UnitResult, opts SolveOpts) {
 	for _, u := range units {
 		locks[u] = &sync.Mutex{}
 	}
+	var mu sync.Mutex
 	for i := 0; i < opts.Workers; i++ {
 		wg.Add(1)
 		go func() {
 			defer wg.Done()
 			for j := range ch {
 				o := j.o
-				if o.Trivial {
-					o.Status = "unsat"
-					o.Solver = "simplifier"
-					continue
-				}
 				tag := nameSan.ReplaceAllString(o.Name, "_")
 				if len(tag) > 150 {
 					tag = tag[:150]
 				}
+				if len(o.Parts) > 0 {
+					tag += fmt.Sprintf(".p%d", j.part)
+				}
 				mk := func(cvc5 bool) string {
 					locks[j.u].Lock()
 					defer locks[j.u].Unlock()
-					return j.u.Exec.scriptFor(o, cvc5, len(j.u.Exec.replayTerms) > 0)
+					return j.u.Exec.scriptFor(o, j.part, cvc5, len(j.u.Exec.replayTerms) > 0)
 				}
 				r := Solve(mk, opts.TimeoutS, opts.Scratch, tag, "")
-				o.Status, o.Solver, o.Seconds, o.Output = r.Status, r.Solver, r.Seconds, r.Output
-				if o.Kind == "vacuity" {
-					// expected sat
-					switch r.Status {
-					case "sat":
-						o.Status = "unsat" // discharged: precondition is satisfiable
-					case "unsat":
-						o.Status = "sat"
-						o.Output = "precondition is contradictory (vacuous contract)\n" + r.Output
-					default:
-						// undecided vacuity probe: not a failure of the code; report as note
-						o.Status = "unsat"
-						o.Solver = r.Solver + " (vacuity undecided: " + r.Status + ")"
-					}
-				}
+				mu.Lock()
+				results[o][j.part] = r
+				mu.Unlock()
 			}
 		}()
 	}
@@ -379,12 +396,58 @@ func SolveUnits(units []*UnitResult, opts SolveOpts) {
 	}
 	close(ch)
 	wg.Wait()
+	for _, u := range units {
+		for _, o := range u.Obligs {
+			if o.Trivial {
+				o.Status, o.Solver = "unsat", "simplifier"
+				continue
+			}
+			rs := results[o]
+			// combine parts: all unsat => unsat; any sat => sat; else worst
+			o.Status = "unsat"
+			o.FailPart = -1
+			solvers := map[string]bool{}
+			for k, r := range rs {
+				o.Seconds += r.Seconds
+				solvers[r.Solver] = true
+				if r.Status == "unsat" {
+					continue
+				}
+				if r.Status == "sat" || o.Status == "unsat" {
+					if o.Status != "sat" {
+						o.Status = r.Status
+						o.Output = r.Output
+						o.FailPart = k
+					}
+				}
+			}
+			o.Solver = strings.Join(sortedKeys(solvers), "+")
+			if o.Kind == "vacuity" {
+				// expected sat
+				switch o.Status {
+				case "sat":
+					o.Status = "unsat" // discharged: precondition is satisfiable
+				case "unsat":
+					o.Status = "sat"
+					o.Output = "precondition is contradictory (vacuous contract)\n" + o.Output
+				default:
+					// undecided vacuity probe: not a failure of the code
+					o.Solver += " (vacuity undecided: " + o.Status + ")"
+					o.Status = "unsat"
+				}
+			}
+		}
+	}
 }
 
 func writeFailingScript(dir string, u *UnitResult, o *Oblig) string {
 	_ = os.MkdirAll(dir, 0o755)
 	fn := filepath.Join(dir, nameSan.ReplaceAllString(o.Name, "_")+".smt2")
-	_ = os.WriteFile(fn, []byte(u.Exec.scriptFor(o, false, true)), 0o644)
+	part := o.FailPart
+	if part < 0 {
+		part = 0
+	}
+	_ = os.WriteFile(fn, []byte(u.Exec.scriptFor(o, part, false, true)), 0o644)
 	return fn
 }
 
